@@ -374,6 +374,7 @@ func TestC04_INP(t *testing.T) {
 type c04Bin struct {
 	VerifyMode string  `json:"verify_setting"` // true | false | default (key absent from the configuration)
 	Login      c04Side `json:"login_from"`
+	Earlier    *c04Side `json:"earlier_download_from,omitempty"` // the same session downloaded a file from this address a moment before
 	Case       c04Case `json:"case"` // Issue = the /connect request that downloads the file
 }
 
@@ -384,6 +385,13 @@ func TestC04_BIN(t *testing.T) {
 		c.Login = c.Case.Issue
 		if rapid.Bool().Draw(t, "loginElsewhere") {
 			c.Login = c04Side{IP: rapid.SampledFrom(c04IPs[:4]).Draw(t, "loginIP")}
+		}
+		if rapid.IntRange(0, 2).Draw(t, "earlierDownload") == 0 {
+			e := c04Side{IP: rapid.SampledFrom(c04IPs[:4]).Draw(t, "earlierIP")}
+			if rapid.Bool().Draw(t, "earlierXFF") {
+				e.XFF = []string{rapid.SampledFrom(c04Far[:4]).Draw(t, "earlierFirst")}
+			}
+			c.Earlier = &e
 		}
 		if strings.Contains(c.Case.Issue.IP, ":") || strings.Contains(c.Login.IP, ":") || strings.Contains(c.Case.Use.IP, ":") {
 			c.Case.Issue.IP, c.Login.IP, c.Case.Use.IP = "127.0.0.1", "127.0.0.2", "127.0.0.1" // the binary listens on IPv4 and IPv6; keep the HTTP client simple
@@ -403,6 +411,12 @@ func TestC04_BIN(t *testing.T) {
 		b.LocalIP, b.XFF = c.Login.IP, c.Login.XFF
 		if r, _, err := b.login(in, idp.CodeSpec{Sub: w.User, Username: w.User}); err != nil || r.Code != http.StatusFound {
 			return viol("c04/setup", "login failed: %v %d", err, r.Code)
+		}
+		if c.Earlier != nil {
+			b.LocalIP, b.XFF = c.Earlier.IP, c.Earlier.XFF
+			if r0, err := b.get(in, "/connect"); err != nil || r0.Code != 200 {
+				return viol("c04/setup", "earlier download failed: %v %d", err, r0.Code)
+			}
 		}
 		b.LocalIP, b.XFF = c.Case.Issue.IP, c.Case.Issue.XFF
 		r, err := b.get(in, "/connect")
